@@ -858,12 +858,10 @@ func main() {
 		sysNames = []string{"MemFS/Linux", "OrefaFS/Linux", "MemFS/Linux/tree", "OrefaFS/Linux/tree"}
 	}
 
+	// both tiers run histories of length <= 3 (the thorough tier has the larger alphabet)
 	d := *depth
 	if d == 0 {
-		d = 2
-		if *tier == "thorough" {
-			d = 3
-		}
+		d = 3
 	}
 
 	budget := 0
